@@ -10,7 +10,7 @@ import (
 	"time"
 
 	"verif/harness/core"
-	_ "verif/harness/mon"
+	"verif/harness/mon"
 )
 
 func main() {
@@ -28,7 +28,11 @@ func main() {
 	logp := flag.String("log", "", "internal")
 	list := flag.Bool("list", false, "list properties")
 	caseID := flag.String("case", "", "run only this case id, verbosely, in-process")
+	c17child := flag.String("c17child", "", "internal: run one C17 history and write its trace to -out")
 	flag.Parse()
+	if *c17child != "" {
+		os.Exit(mon.C17Child(*c17child, *out))
+	}
 
 	if *list {
 		for _, id := range core.IDs() {
